@@ -320,7 +320,7 @@ class ModuleFinder:
 
         for subpath in self._filter_py_modules(path):
             rel_subpath = subpath.relative_to(path)
-            if rel_subpath.parent in skip:
+            if not skip.isdisjoint(rel_subpath.parents):
                 logger.debug("Skip %s, another module took precedence", subpath)
                 continue
             py_file = rel_subpath.suffix == ".py"
